@@ -1,5 +1,6 @@
 CONSTANTS
   FieldNums <- NoSeq
+  PairNums <- NoSeq
   CountNums <- NoSeq
   MsgTypes <- NoSeq
   AdminTypes = {}
